@@ -349,14 +349,30 @@ func coordinate(r *ev.Run, scenarios []Scenario, finish func(r *ev.Run)) {
 	minBound, unb := 1<<30, 0
 	var per []string
 	extra := map[string]int64{}
+	// An infrastructure error (a state-cache self-test mismatch, a diverging replay) in one worker
+	// is fatal only if no worker found a violation: invisible communication between threads (a
+	// data race in the code under test) breaks the assumptions of the cache and of replay, and is
+	// then reported by the race build / the oracle instead.
+	anyViolation, infra := false, ""
+	for _, res := range results {
+		if len(res.Violations) > 0 {
+			anyViolation = true
+		}
+		if res.Infra != "" && infra == "" {
+			infra = res.Infra
+		}
+	}
+	if infra != "" && !anyViolation {
+		ev.Infra("%s", infra)
+	}
+	if infra != "" {
+		r.Set("infrastructure_note", "a worker also reported: "+infra)
+	}
 	for _, res := range results {
 		if !res.Race {
 			for k, v := range res.Extra {
 				extra[k] += v
 			}
-		}
-		if res.Infra != "" {
-			ev.Infra("%s", res.Infra)
 		}
 		for _, s := range res.Scenarios {
 			if res.Race {
